@@ -211,6 +211,29 @@ def obligations(S, N=3, LOOP=8):
             else:
                 any_in = z3.Or([in_range(i) for i in range(n)]) if n else z3.BoolVal(False)
                 mk("C18:Vec::get_value:none-only-when-out-of-range", ["C18"], p, z3.And(v.is_variant(r, "None", OPT_REF), z3.Not(any_in)), ex, {"n": n})
+        # ---------------- GM: get_mut_value selects exactly the element get_value selects (the drivers descend through it)
+        f_gm = fn_of(S, "get_mut_value")
+        fns.append((f_gm.name, f_gm.text_hash))
+        ex, st, arr, cells = setup(S, n, LOOP)
+        st.heap["keycell"] = K
+        for p in ex.run(f_gm, [arr, Ref("&isize", "keycell", ())], st):
+            if p.outcome.kind != "ret":
+                mk(f"C18:Vec::get_mut_value:{p.outcome.kind}", ["C18", "C04"], p, z3.BoolVal(False), ex, {"msg": p.outcome.msg, "n": n})
+                continue
+            mk("C04:Vec::get_mut_value:path-ends-in-return", ["C04"], p, z3.BoolVal(True), ex, {"n": n})
+            v = V(ex, p.st)
+            r = p.outcome.value
+            in_range = lambda i: z3.Or(key == z3.BitVecVal(i, 64), key == z3.BitVecVal(i - n, 64))
+            d = p.st.simp(ex.discriminant(p.st, r))
+            if z3.is_bv_value(d) and d.as_long() == 1:
+                ref = ex.enum_field(p.st, r, "Some", 0, "&mut T")
+                i = cells.index(ref.cell) if isinstance(ref, Ref) and ref.cell in cells else None
+                mk("C18:Vec::get_mut_value:some-is-the-indexed-element", ["C18"], p, in_range(i) if i is not None else z3.BoolVal(False), ex, {"n": n, "i": i})
+            else:
+                any_in = z3.Or([in_range(i) for i in range(n)]) if n else z3.BoolVal(False)
+                mk("C18:Vec::get_mut_value:none-only-when-out-of-range", ["C18"], p, z3.And(v.is_variant(r, "None", "std::option::Option<&mut T>"), z3.Not(any_in)), ex, {"n": n})
+        for n_, h in ex.stats["fns_entered"].items():
+            fns.append((n_, h))
         # ---------------- I: insert_value, then get_value on the resulting array
         ex, st, arr, cells = setup(S, n, LOOP)
         x = ex.fresh(VAL, "x")
@@ -325,6 +348,15 @@ def replayer(o, model):
         if abs(k) <= 64:
             src += f".a[{k}] = \"x\"\n"
         return "run", {"source": src, "event": {}}, {"outcome": "ok"}
+    if "get_mut_value" in o.role:
+        # a nested write / delete below the index goes through get_mut_value; the read goes through get_value
+        objs = "[" + ", ".join(f'{{"y": {i}}}' for i in range(n)) + "]"
+        idx = k if k >= 0 else n + k
+        inside = 0 <= idx < n
+        src = f".a = {objs}\n.before = .a[{k}].y\n.removed = del(.a[{k}].y)\n.kept = .a\n"
+        kept = [{"Object": ({} if (inside and i == idx) else {"y": {"Integer": str(i)}})} for i in range(n)]
+        exp = {"outcome": "ok", "event_eq": {"removed": ({"Integer": str(idx)} if inside else "Null"), "before": ({"Integer": str(idx)} if inside else "Null"), "kept": {"Array": kept}}}
+        return "run", {"source": src, "event": {}}, exp
     if "insert" in o.role:
         src = f".a = {arr}\n.a[{k}] = \"x\"\n.got = .a[{k}]\n"
         # reference result computed from the property statement
